@@ -129,7 +129,28 @@ def api_consistency_table(ctx, rule, deep=False):
                           key=f'api|{kind}|{s}', sample_cap=6)
             if problems and bad is None:
                 bad = (kind, s, problems[0])
-    rule.instance({'api_calls': len(reqs)}, key='api-calls')
+    # filter() over a list of siblings with selectors that read :scope: every member is its own scope, as in match(member)
+    n_scope = 0
+    for kind in kinds:
+        m = meta[kind]
+        order = m['order']
+        sibs = [order[i] for i in m['kids']]
+        for s in (':scope', ':not(:scope)', ':scope:nth-child(even)', ':scope + *', ':is(:scope, p) > *'):
+            alone = []
+            for e in sibs:
+                st, v = api(ctx, 'match', s, e, **dict(ns))
+                alone.append(v if st == 'ok' else f'raises {v}')
+            for how, tgt in (('list', list(sibs)), ('iterator', iter(list(sibs)))):
+                st, got = api(ctx, 'filter', s, tgt, **dict(ns))
+                n_scope += 1
+                g = [label(x) for x in got] if st == 'ok' else f'raises {got}'
+                want = [label(e) for e, a in zip(sibs, alone) if a is True]
+                rule.instance({'document': kind, 'selector': s, 'filter_over': f'{how} of the children of <body>', 'kept': g, 'consistent': g == want},
+                              key=f'api-scope|{kind}|{s}|{how}', sample_cap=4)
+                if g != want and bad is None:
+                    bad = (kind, s, f'filter({how} of the element children of <body>) = {g}, the members that match() accepts one by one (each member is '
+                                    f'its own :scope) are {want}')
+    rule.instance({'api_calls': len(reqs) + n_scope}, key='api-calls')
     rule.obligation(bad is None)
     if bad is not None:
         kind, s, problem = bad
